@@ -521,6 +521,7 @@ def tlc_validate(ctx, files, need_cover=True):
         r = ctx.tlc("C19Trace", "C19Trace.cfg", env={"VERIF_RECS": f}, timeout=3000, heap="14g", workers=vlib.NCPU,
                     tag="C19Trace-" + os.path.basename(f))
         got, missing = None, None
+        nb0 = len(bad)
         for l in r["printed"]:
             m = re.match(r'<<"BAD", (\d+)>>', l)
             if m:
@@ -536,6 +537,7 @@ def tlc_validate(ctx, files, need_cover=True):
                 cover = tuple(int(x) for x in m.groups())
             if l.startswith('<<"MISSING"'):
                 missing = l.strip()
+        vlib.expect_bad(r, len(bad) - nb0, "C19Trace")
         if got is None or r["error"] or r["rc"] != 0:
             raise vlib.MachineryError("TLC validation of %s failed (rc=%s)\n%s" % (f, r["rc"], r["out"][-4000:]))
         if need_cover and (cover is None or missing != '<<"MISSING", {}>>' or cover[0] != cover[1] or cover[2] != cover[3]):
